@@ -632,6 +632,36 @@ def f55():
     return ok, "virtual fields of configurations in lists, with and without a mask: %r / %r" % (plain, masked)
 
 
+
+@witness("P1", ["C01", "C05"])
+def p1():
+    """not a repaired defect: a standing probe of a corner no model covers (case maps that change the length of a string:
+    the Coq field model is ASCII-only under a case transform)"""
+    from cincoconfig import Schema, StringField
+    bad = []
+    for case, text in (("upper", "stra\u00df"), ("upper", "\ufb01x"), ("lower", "\u0130"), ("lower", "A\u0130")):
+        for mx in (len(text), len(text) + 1):
+            for mn in (None, len(text) + 1):
+                s = Schema()
+                s.f = StringField(transform_case=case, max_len=mx, min_len=mn)
+                c = s()
+                try:
+                    c.f = text
+                except ValueError:
+                    continue
+                v = c.f
+                if len(v) > mx or (mn is not None and len(v) < mn):
+                    bad.append((case, text, mn, mx, v))
+                else:
+                    try:
+                        c.f = v
+                        if c.f != v:
+                            bad.append((case, text, "not idempotent", v, c.f))
+                    except ValueError:
+                        bad.append((case, text, "accepted result rejected again", v))
+    return not bad, "strings whose case mapping changes their length against length bounds: %r" % (bad[:3],)
+
+
 # ---------------------------------------------------------------------------------------------
 # probes of OPEN findings that no correspondence stream reaches (operations outside the model's
 # alphabet).  A probe returns (still_reproduces, detail); it never raises an alarm by itself.
@@ -695,7 +725,7 @@ def p37():
 def main(argv):
     home = _tmp()
     os.environ["HOME"] = home
-    ids = argv or sorted(WITNESSES, key=lambda s: int(s[1:]))
+    ids = argv or sorted(WITNESSES, key=lambda s: int(s[1:]) if s[1:].isdigit() else 0)
     bad = 0
     for fid in ids:
         props, fn = WITNESSES[fid]
